@@ -9,7 +9,7 @@ VERIF = os.path.dirname(os.path.dirname(os.path.abspath(__file__)))
 NEIGH = {"C01": "C01 C17 C08 C05", "C02": "C02 C05 C06 C08 C18", "C03": "C03 C05 C08 C06 C18", "C04": "C04 C05 C06", "C05": "C05 C03 C04 C06 C07 C02",
          "C06": "C06 C13 C02 C11", "C07": "C07 C12", "C08": "C08 C01 C02 C17 C18", "C09": "C09 C20 C10 C11", "C10": "C10 C09", "C11": "C11 C15 C14 C16",
          "C12": "C12 C07 C13", "C13": "C13 C16", "C14": "C14 C15", "C15": "C15 C11 C14", "C16": "C16 C13 C03", "C17": "C17 C01 C08",
-         "C18": "C18 C01", "C19": "C19", "C20": "C20 C09 C11"}
+         "C18": "C18 C01", "C19": "C19", "C20": "C20 C09 C11 C19"}
 base = os.path.join(VERIF, "seeded")
 names = sys.argv[1:] or sorted(os.path.basename(d) for d in glob.glob(os.path.join(base, "C*_m*")))
 
